@@ -566,7 +566,7 @@ func (e *Exec) outcomeConflict(a, b Outcome, live map[ssa.Value]bool) bool {
 }
 
 func (e *Exec) mergeAll(outs []Outcome, n int, live map[ssa.Value]bool) []Outcome {
-	if len(outs) >= 2 {
+	if len(outs) >= 2 && len(outs) <= 6 {
 		conflict := false
 		for i := 1; i < len(outs) && !conflict; i++ {
 			conflict = e.outcomeConflict(outs[0], outs[i], live)
@@ -966,7 +966,7 @@ func (e *Exec) stepMulti(s *State, fr *Frame, instr ssa.Instruction) ([]Outcome,
 				for i := range b {
 					b[i] = term(e.iteChain(cells, Bin("bvadd", sl.off, C(64, uint64(i)))))
 				}
-				outs = append(outs, Outcome{kind: ORet, st: cv.st, vals: []Value{StrV{b}}})
+				outs = append(outs, Outcome{kind: ORet, st: cv.st, vals: []Value{StrV{b: b}}})
 			}
 			return outs, true
 		}
@@ -1032,17 +1032,13 @@ func (e *Exec) lookup(s *State, fr *Frame, in *ssa.Lookup) []Outcome {
 		// string index
 		str := x.(StrV)
 		idx := SExt(term(k), 64)
-		ok := Cmp("ult", idx, C(64, uint64(len(str.b))))
+		ok := Cmp("ult", idx, strLen(str))
 		e.panicState(s, fr, in, Not(ok), "index out of range")
 		if ok.isFalse() {
 			return []Outcome{{kind: OPanic, st: s}}
 		}
 		s.assume(ok)
-		cells := make([]Value, len(str.b))
-		for i, t := range str.b {
-			cells[i] = t
-		}
-		return ret(s, e.iteChain(cells, idx))
+		return ret(s, strAt(str, idx))
 	}
 	zero := e.zero(mt.Elem())
 	mkOut := func(st *State, v Value, ok bool) Outcome {
@@ -1097,8 +1093,15 @@ func (e *Exec) keyMatch(s *State, m MapV, k Value) []keyAlt {
 		none = And(none, Not(c))
 	}
 	var alts []keyAlt
+	cand := 0
+	for _, c := range conds {
+		if !c.isFalse() {
+			cand++
+		}
+	}
+	prune := cand <= 12
 	for i, c := range conds {
-		if c.isFalse() || !e.feasible(s, c) {
+		if c.isFalse() || (prune && !e.feasible(s, c)) {
 			continue
 		}
 		e.forks++
@@ -1106,7 +1109,7 @@ func (e *Exec) keyMatch(s *State, m MapV, k Value) []keyAlt {
 		s2.assume(c)
 		alts = append(alts, keyAlt{i, s2})
 	}
-	if !none.isFalse() && (len(alts) == 0 || e.feasible(s, none)) {
+	if !none.isFalse() && (len(alts) == 0 || !prune || e.feasible(s, none)) {
 		s.assume(none)
 		alts = append(alts, keyAlt{-1, s})
 	}
@@ -1138,6 +1141,12 @@ func (e *Exec) mapUpdate(s *State, fr *Frame, in *ssa.MapUpdate) []Outcome {
 }
 
 func strEq(a, b StrV) *Term {
+	if a.alt != nil {
+		return Ite(a.alt.c, strEq(a.alt.x, b), strEq(a.alt.y, b))
+	}
+	if b.alt != nil {
+		return Ite(b.alt.c, strEq(a, b.alt.x), strEq(a, b.alt.y))
+	}
 	if len(a.b) != len(b.b) {
 		return False()
 	}
@@ -1155,7 +1164,7 @@ func (e *Exec) sliceLen(v Value) *Term {
 	case NilV:
 		return C(64, 0)
 	case StrV:
-		return C(64, uint64(len(x.b)))
+		return strLen(x)
 	}
 	panic(engineErr("len of %T", v))
 }
@@ -1313,6 +1322,14 @@ func (e *Exec) step(s *State, fr *Frame, instr ssa.Instruction) bool {
 			}
 			s.assume(ok)
 			fr.regs[in] = e.iteChain(a.cells, idx)
+		case StrV:
+			ok := Cmp("ult", idx, strLen(a))
+			e.panicState(s, fr, in, Not(ok), "index out of range")
+			if ok.isFalse() {
+				return false
+			}
+			s.assume(ok)
+			fr.regs[in] = strAt(a, idx)
 		default:
 			panic(engineErr("Index on %T", x))
 		}
@@ -1367,6 +1384,7 @@ func (e *Exec) step(s *State, fr *Frame, instr ssa.Instruction) bool {
 		case NilV:
 			off, ln, cp = C(64, 0), C(64, 0), C(64, 0)
 		case StrV:
+			b = b.plain("slicing")
 			isStr, str = true, b
 			n := C(64, uint64(len(b.b)))
 			off, ln, cp = C(64, 0), n, n
@@ -1398,7 +1416,7 @@ func (e *Exec) step(s *State, fr *Frame, instr ssa.Instruction) bool {
 			if !lo.isConst() || !hi.isConst() {
 				panic(engineErr("symbolic string slice bounds"))
 			}
-			fr.regs[in] = StrV{str.b[lo.val:hi.val]}
+			fr.regs[in] = StrV{b: str.b[lo.val:hi.val]}
 			return true
 		}
 		if _, isNil := x.(NilV); isNil {
@@ -1424,6 +1442,7 @@ func (e *Exec) step(s *State, fr *Frame, instr ssa.Instruction) bool {
 		case NilV:
 			fr.regs[in] = IterRef{e.alloc(s, IterV{})}
 		case StrV:
+			m = m.plain("range")
 			var ks, vs []Value
 			for i, b := range m.b {
 				if !b.isConst() || b.val >= 0x80 {
@@ -1484,6 +1503,7 @@ func (e *Exec) convert(s *State, fr *Frame, in *ssa.Convert) bool {
 		switch y := xv.(type) {
 		case StrV:
 			if _, ok := dst.(*types.Slice); ok {
+				y = y.plain("conversion to []byte")
 				cells := make([]Value, len(y.b))
 				for i, t := range y.b {
 					cells[i] = t
@@ -1501,7 +1521,7 @@ func (e *Exec) convert(s *State, fr *Frame, in *ssa.Convert) bool {
 			for i := range b {
 				b[i] = term(e.iteChain(cells, Bin("bvadd", y.off, C(64, uint64(i)))))
 			}
-			fr.regs[in] = StrV{b}
+			fr.regs[in] = StrV{b: b}
 			return true
 		case NilV:
 			if _, ok := dst.(*types.Basic); ok {
@@ -1551,7 +1571,7 @@ func (e *Exec) binop(s *State, fr *Frame, in *ssa.BinOp, x, y Value) (Value, boo
 		sb := y.(StrV)
 		switch in.Op {
 		case token.ADD:
-			return StrV{append(append([]*Term(nil), sa.b...), sb.b...)}, true
+			return strConcat(sa, sb), true
 		case token.LSS, token.GTR, token.LEQ, token.GEQ:
 			ca, ok1 := sa.concrete()
 			cb, ok2 := sb.concrete()
